@@ -102,3 +102,86 @@ class truncate_process:
     ensures = ['NY == IT0.N']
     raises = []
     serves = ['C08']
+
+
+# --------------------------------------------------------------------------------- layout filters: per-site obligations
+
+from pyvc.heap import HeapExec, bind_elem_or_none  # noqa: E402
+from contracts.sql import make_group  # noqa: E402
+
+REG.inline_ok |= {'sqlparse.sql.TokenList.insert_before', 'sqlparse.sql.TokenList.insert_after'}
+
+# C06: what a layout filter may do to the tree.  `elem` = the element removed / inserted, `obj`/`new` = a field store.
+LAYOUT_SITES = {
+    'remove': ['elem.is_whitespace == True'],
+    'insert': ['elem.is_group == False', 'elem.ttype in T.Whitespace'],
+    'store:value': ['obj.is_whitespace == True', "new == '' or new == ' '"],
+    'store:parent': [],            # re-parenting of an inserted whitespace token
+    '__closed__': True,            # any other store to a token field (ttype, normalized, flags ...) is a violation
+}
+
+
+def make_filter(clsname, **fields):
+    def mk(ex, st):
+        import sqlparse.filters as F
+        f = {'__class__': getattr(F, clsname)}
+        f.update(fields)
+        return ex.new_obj(st, clsname, f)
+    return mk
+
+
+@contract('sqlparse.filters.others.StripWhitespaceFilter._stripws_default')
+class stripws_default:
+    """only whitespace children are rewritten, and only to '' or ' ' (every iteration, every list)"""
+    exec_class = HeapExec
+    params = {'tlist': make_group}
+    sites = LAYOUT_SITES
+    loops = {'0': {'arbitrary': True}}
+    ensures = []
+    raises = []
+    serves = ['C06', 'C10']
+
+
+@contract('sqlparse.filters.others.StripWhitespaceFilter._stripws_parenthesis')
+class stripws_parenthesis:
+    exec_class = HeapExec
+    params = {'self': make_filter('StripWhitespaceFilter'), 'tlist': make_group}
+    sites = LAYOUT_SITES
+    ensures = []
+    # (that the delimiters exist, i.e. no IndexError, is the bracket shape B: C09 / C07)
+    raises = ['IndexError']
+    serves = ['C06', 'C10']
+
+
+@contract('sqlparse.filters.others.StripWhitespaceFilter._stripws_identifierlist')
+class stripws_identifierlist:
+    exec_class = HeapExec
+    params = {'self': make_filter('StripWhitespaceFilter'), 'tlist': make_group}
+    sites = LAYOUT_SITES
+    # every element collected in last_nl is a whitespace token (that it is a child of tlist, i.e. no ValueError, is C07)
+    loops = {'0': {'arbitrary': True, 'inv': ["ALL(last_nl, 'is_whitespace', True)"]}, '0.0': {'arbitrary': True}}
+    ensures = []
+    raises = ['ValueError']
+    serves = ['C06', 'C10']
+
+
+@contract('sqlparse.filters.others.SpacesAroundOperatorsFilter._process')
+class spaces_process:
+    exec_class = HeapExec
+    params = {'tlist': make_group}
+    sites = LAYOUT_SITES
+    loops = {'0': {'bind': bind_elem_or_none('tlist', 'tidx', 'token')}}
+    ensures = []
+    raises = []
+    serves = ['C06', 'C10']
+
+
+@contract('sqlparse.filters.others.StripTrailingSemicolonFilter.process')
+class strip_semicolon:
+    """split(strip_semicolon=True): only trailing whitespace and ';' tokens are removed"""
+    exec_class = HeapExec
+    params = {'self': make_filter('StripTrailingSemicolonFilter'), 'stmt': make_group}
+    sites = {'remove': ["elem.is_whitespace == True or elem.value == ';'"], '__closed__': True}
+    ensures = []
+    raises = []
+    serves = ['C04']
